@@ -51,6 +51,7 @@ def cases(draw):
     fam = draw(st.sampled_from(["power", "poly2", "poly3"][:maxdeg]))
     s["family"] = fam
     s["metamorphic"] = draw(st.sampled_from(["none", "none", "shift", "scale"]))
+    s["static_rows"] = draw(st.sampled_from(["as-is", "as-is", "reversed", "shuffled"]))     # the static table has its own volume column
     return s
 
 
@@ -59,8 +60,13 @@ def observe(ctx, s, ds, qs, case, static_override=None):
     with Workdir() as wd, warnings.catch_warnings(), np.errstate(all="ignore"):
         warnings.simplefilter("ignore")
         path, cfg = materialise(ds, wd, qs)
-        if static_override is not None:
-            write_input02(os.path.join(wd, "input02"), ds, table=static_override)
+        row_order = None
+        if s.get("static_rows", "as-is") == "reversed":
+            row_order = list(range(ds.nv_static))[::-1]
+        elif s.get("static_rows") == "shuffled":
+            row_order = [int(x) for x in np.random.default_rng(s["seed"] ^ 0x77).permutation(ds.nv_static)]
+        if static_override is not None or row_order is not None:
+            write_input02(os.path.join(wd, "input02"), ds, table=static_override, row_order=row_order)
         calc = ctx.observe(cc.Calculator, path, _bucket="C05/crash", _case=case)
         obs = {
             "T": np.array(calc.t_array, dtype=float),
@@ -136,7 +142,8 @@ def oracle(ctx, s, ds, qs, case):
             slack = 3 * np.abs(ref["best"][k][n] - ref["coarse"][k][n]) + REL * phscale + 1e-7 * scale
             ok = np.abs(got - want) <= slack
             if name == "adi":
-                ok = ok | ~np.isfinite(want)          # C_V <= 0 rows: nothing is claimed
+                # adiabatic values are claimed only where the QHA heat capacity is positive (and at T=0)
+                ok = ok | ~np.isfinite(want) | ~((obs["cv"] > 0) | (T[:, None] == 0))
             if got.shape != want.shape or not np.all(ok):
                 idx = tuple(int(x) for x in np.argwhere(~ok)[0]) if got.shape == want.shape else ()
                 raise PropertyViolation(
@@ -192,7 +199,8 @@ def sub_end_to_end(ctx):
         nt = (s["lattice"] or nonortho) and s["nq"] >= 2 and bool(np.any(obs["T"] > 0))
         cl = ["interp-" + s["interpolator"], "family-" + s["family"], "system-" + s["system"],
               "fill-requested" if s["apply_system"] else "no-fill", "lattice" if s["lattice"] else "no-lattice",
-              "metamorphic-" + s["metamorphic"], "non-orthotropic-keys" if nonortho else "orthotropic-keys"]
+              "metamorphic-" + s["metamorphic"], "non-orthotropic-keys" if nonortho else "orthotropic-keys",
+              "static-rows-" + s.get("static_rows", "as-is")]
         ctx.case(s, nt, classes=cl)
 
     ctx.run_given(body, cases(), max_examples=ctx.n(160, 10000), shrink=not ctx.quick)
